@@ -28,6 +28,8 @@ pub enum Leg {
     Sched { quick: u32, thorough: u32 },
     /// real-thread waker scenarios under Miri (data-race detector, weak-memory emulation)
     Miri { quick_seeds: u32, thorough_seeds: u32 },
+    /// coverage-guided fuzzing (libFuzzer + ASan) of an engine; thorough tier only
+    Fuzz { target: &'static str, runs: u64 },
 }
 
 pub struct PropSpec {
@@ -48,6 +50,10 @@ const A_TIMERS: &[&str] = &[
 
 pub fn is_pbt_engine(e: &str) -> bool {
     matches!(e, "timers" | "scenario" | "queues" | "vm")
+}
+
+fn timers_legs(focus: &'static str, quick: u32, thorough: u32) -> Vec<Leg> {
+    vec![timers_leg(focus, quick, thorough), Leg::Fuzz { target: "timers", runs: 1_000_000 }]
 }
 
 fn timers_leg(focus: &'static str, quick: u32, thorough: u32) -> Leg {
@@ -137,9 +143,9 @@ fn vm_specs() -> Vec<PropSpec> {
         min_nontrivial: 1000,
         id,
         legs: match id {
-            "C01" => vec![vm_leg(id, 600_000, 20_000_000)],
+            "C01" => vec![vm_leg(id, 600_000, 20_000_000), Leg::Fuzz { target: "prog", runs: 20_000 }],
             "C06" => vec![vm_leg(id, 1_500_000, 40_000_000)],
-            "C16" => vec![vm_leg(id, 1_200_000, 30_000_000)],
+            "C16" => vec![vm_leg(id, 1_200_000, 30_000_000), Leg::Fuzz { target: "prog", runs: 20_000 }],
             "C15" => vec![vm_leg(id, 2_000_000, 60_000_000), timers_leg("C15", 1_000_000, 30_000_000)],
             _ => vec![vm_leg(id, 3_000_000, 80_000_000)],
         },
@@ -163,35 +169,35 @@ fn all_base() -> Vec<PropSpec> {
         PropSpec {
             min_nontrivial: 1000,
             id: "C07",
-            legs: vec![timers_leg("C07", 2_000_000, 60_000_000)],
+            legs: timers_legs("C07", 2_000_000, 60_000_000),
             rule: "cases are byte strings decoded into timer histories (add/after/max/min add, upd, del, active, run, next_* from top level, main-queue items and timer callbacks); non-trivial = history contains a successful update of a Min/Max timer, or an expiry within 2 resolution steps of a run instant or of the creation time, or a run jumping >= 32767 s with a timer pending; distinct = distinct byte strings (FNV-1a hash)",
             assumptions: A_TIMERS.to_vec(),
         },
         PropSpec {
             min_nontrivial: 1000,
             id: "C08",
-            legs: vec![timers_leg("C08", 2_000_000, 60_000_000)],
+            legs: timers_legs("C08", 2_000_000, 60_000_000),
             rule: "timer histories weighted towards Min/Max updates and large jumps; non-trivial = a Min/Max timer was successfully updated to an instant at/before the current time, or (updated at a sub-tick offset and beyond 9 h), or a single run spanned >= 2 re-queue periods (65534 s) with timers pending; distinct = distinct byte strings",
             assumptions: A_TIMERS.to_vec(),
         },
         PropSpec {
             min_nontrivial: 1000,
             id: "C09",
-            legs: vec![timers_leg("C09", 2_000_000, 60_000_000)],
+            legs: timers_legs("C09", 2_000_000, 60_000_000),
             rule: "timer histories with next_expiry() checked after every operation and next_wait/next_wait_max with generated now/maxdur/pending; every history ends with the drain loop `while let Some(e) = next_expiry() { run(e) }` under an iteration budget; non-trivial = the earliest deadline belonged to an updated Min/Max timer at some check, or a delete removed the earliest deadline, or the set mixed >= 2 timer kinds; distinct = distinct byte strings",
             assumptions: A_TIMERS.to_vec(),
         },
         PropSpec {
             min_nontrivial: 1000,
             id: "C10",
-            legs: vec![timers_leg("C10", 2_000_000, 60_000_000)],
+            legs: timers_legs("C10", 2_000_000, 60_000_000),
             rule: "timer histories where any key ever issued (and the Default key of each kind) may be used at any time; non-trivial = a key was used after its timer fired/was deleted and after >= 2 slots had been freed and another timer created since, or a Default key was used while a timer was pending; distinct = distinct byte strings",
             assumptions: A_TIMERS.to_vec(),
         },
         PropSpec {
             min_nontrivial: 1000,
             id: "C19",
-            legs: vec![timers_leg("C19", 2_000_000, 60_000_000)],
+            legs: timers_legs("C19", 2_000_000, 60_000_000),
             rule: "timer histories weighted towards bursts of fixed timers (timer_add/after) sharing or nearly sharing instants, expired by single runs; non-trivial = some run fired >= 3 short fixed timers with >= 2 deadlines >= 2 steps apart and >= 2 given the identical instant; distinct = distinct byte strings",
             assumptions: A_TIMERS.to_vec(),
         },
@@ -200,6 +206,7 @@ fn all_base() -> Vec<PropSpec> {
             id: "C17",
             legs: vec![
                 Leg::QueueSweep { jmax_q: 2, jmax_t: 4 },
+                Leg::Fuzz { target: "queue", runs: 400_000 },
                 Leg::Pbt {
                     engine: "queues",
                     focus: "C17",
@@ -238,6 +245,12 @@ pub fn describe_leg(leg: &Leg, thorough: bool) -> Value {
         Leg::MatrixLogger => json!({
             "kind": "proptest programs sent to one persistent vrun process per feature set that includes logger, recording logger installed",
             "programs_requested": if thorough { 2_000_000 } else { 160_000 },
+        }),
+        Leg::Fuzz { target, runs } => json!({
+            "kind": "cargo-fuzz (libFuzzer, AddressSanitizer) campaign over the same byte decoder, oracle inside the target, fresh corpus seeded from harness/vfuzz/seeds, 8 processes",
+            "target": target,
+            "runs_per_process": if thorough { *runs } else { 0 },
+            "note": if thorough { "" } else { "thorough tier only" },
         }),
         Leg::Miri { quick_seeds, thorough_seeds } => json!({
             "kind": "cargo +nightly miri run of /verif/harness/vmiri (real std threads, stakker with no-unsafe-queue), 6 scenarios x seeds via -Zmiri-many-seeds",
@@ -279,6 +292,13 @@ pub fn run_leg(prop: &str, idx: usize, leg: &Leg, thorough: bool, deadline: Inst
             if thorough { *len_t } else { *len_q },
             deadline,
         ),
+        Leg::Fuzz { target, runs } => {
+            if thorough {
+                run_fuzz(prop, idx, target, *runs, deadline)
+            } else {
+                LegResult::new()
+            }
+        }
         Leg::Miri { quick_seeds, thorough_seeds } => run_miri(prop, if thorough { *thorough_seeds } else { *quick_seeds }, deadline),
         Leg::Sched { quick, thorough: th } => run_sched(prop, idx, if thorough { *th } else { *quick }, if thorough { 24 } else { 8 }, deadline),
         Leg::Matrix => crate::matrix::run_leg(prop, idx, thorough, deadline, false),
@@ -355,6 +375,29 @@ pub fn run_findings(prop: &str) -> (Vec<String>, Vec<(String, String)>, usize) {
 
 pub fn replay_special(engine: &str, v: &Value, path: &Path, _verbose: bool) -> i32 {
     match engine {
+        "fuzz-artifact" => {
+            let target = v["target"].as_str().unwrap_or("prog");
+            let art = Path::new(VERIF).join(v["artifact"].as_str().unwrap_or(""));
+            let st = Command::new(Path::new(VERIF).join(format!("build/fuzz/x86_64-unknown-linux-gnu/release/{}", target)))
+                .arg(&art)
+                .env("VERIF_FUZZ_PROP", v["property"].as_str().unwrap_or(""))
+                .status();
+            match st {
+                Ok(s) if s.success() => {
+                    println!("replay: the fuzz target runs this input cleanly");
+                    0
+                }
+                Ok(_) => {
+                    println!("  [fuzz] the fuzz target (ASan build) fails on this input");
+                    println!("VIOLATION property={} replay={}", v["property"].as_str().unwrap_or("?"), path.display());
+                    1
+                }
+                Err(e) => {
+                    println!("cannot run the fuzz target ({}); build it with `cd harness/vfuzz && cargo +nightly fuzz build --target-dir /verif/build/fuzz`", e);
+                    2
+                }
+            }
+        }
         "miri" => {
             let sc = v["scenario"].as_u64().unwrap_or(0);
             let seed = v["miri_seed"].as_u64().unwrap_or(0);
@@ -672,5 +715,131 @@ fn run_miri(prop: &str, seeds: u32, deadline: Instant) -> LegResult {
         }
     }
     res.samples.push(json!({"miri": "scenario 3: 3 worker threads, each writes a plain cell then wake()s its own waker twice; handlers on the main thread read the cells; main answers poll-wakes only"}));
+    res
+}
+
+fn run_fuzz(prop: &str, idx: usize, target: &str, runs: u64, deadline: Instant) -> LegResult {
+    let mut res = LegResult::new();
+    // build (offline)
+    let b = Command::new("cargo")
+        .args(["+nightly", "fuzz", "build", "--target-dir", "/verif/build/fuzz", target])
+        .current_dir(Path::new(VERIF).join("harness/vfuzz"))
+        .env("CARGO_NET_OFFLINE", "true")
+        .output();
+    match b {
+        Ok(o) if o.status.success() => {}
+        Ok(o) => {
+            res.inconclusive.push(format!("cargo fuzz build failed: {}", String::from_utf8_lossy(&o.stderr).lines().rev().take(3).collect::<Vec<_>>().join(" | ")));
+            return res;
+        }
+        Err(e) => {
+            res.inconclusive.push(format!("cannot run cargo fuzz: {}", e));
+            return res;
+        }
+    }
+    let exe = Path::new(VERIF).join(format!("build/fuzz/x86_64-unknown-linux-gnu/release/{}", target));
+    let work = Path::new(VERIF).join(format!("build/work/{}-{}", prop, idx));
+    let _ = fs::remove_dir_all(&work);
+    let nproc = 8;
+    let engine = match target {
+        "prog" => "vm",
+        "timers" => "timers",
+        _ => "queues",
+    };
+    let mut kids = Vec::new();
+    for w in 0..nproc {
+        let d = work.join(format!("p{}", w));
+        let corpus = d.join("corpus");
+        fs::create_dir_all(&corpus).unwrap();
+        fs::create_dir_all(d.join("artifacts")).unwrap();
+        if let Ok(rd) = fs::read_dir(Path::new(VERIF).join(format!("harness/vfuzz/seeds/{}", target))) {
+            for e in rd.flatten() {
+                let _ = fs::copy(e.path(), corpus.join(e.file_name()));
+            }
+        }
+        let child = Command::new(&exe)
+            .arg(&corpus)
+            .args([
+                format!("-runs={}", runs),
+                format!("-seed={}", crate::seed().wrapping_mul(131).wrapping_add(w as u64 + 1) % 4_000_000_000),
+                "-len_control=0".to_string(),
+                "-max_len=500".to_string(),
+                format!("-artifact_prefix={}/", d.join("artifacts").display()),
+                "-print_final_stats=1".to_string(),
+            ])
+            .env("VERIF_FUZZ_PROP", prop)
+            .env("VERIF_FUZZ_STATS", d.join("stats.json"))
+            .stdout(std::process::Stdio::null())
+            .stderr(fs::File::create(d.join("log.txt")).unwrap())
+            .spawn()
+            .expect("fuzz target");
+        kids.push((d, child));
+    }
+    let mut cov = 0u64;
+    for (d, mut child) in kids {
+        let st = loop {
+            match child.try_wait().unwrap() {
+                Some(st) => break Some(st),
+                None => {
+                    if Instant::now() > deadline {
+                        let _ = child.kill();
+                        let _ = child.wait();
+                        break None;
+                    }
+                    std::thread::sleep(std::time::Duration::from_millis(100));
+                }
+            }
+        };
+        if let Ok(b) = fs::read(d.join("stats.json")) {
+            if let Ok(v) = serde_json::from_slice::<Value>(&b) {
+                res.evaluations += v["evaluations"].as_u64().unwrap_or(0);
+                let n = v["distinct_nontrivial"].as_u64().unwrap_or(0);
+                let base = res.nt.len() as u64;
+                for k in 0..n {
+                    // distinct within a process (hash set in the target); processes use different seeds
+                    res.nt.insert(0xF022_0000_0000_0000 ^ ((d.display().to_string().len() as u64) << 40) ^ (base + k));
+                }
+                if let Some(m) = v["classes"].as_object() {
+                    for (k, x) in m {
+                        *res.classes.entry(format!("fuzz:{}", k)).or_insert(0) += x.as_u64().unwrap_or(0);
+                    }
+                }
+            }
+        }
+        let log = fs::read_to_string(d.join("log.txt")).unwrap_or_default();
+        if let Some(l) = log.lines().rev().find(|l| l.contains("cov:")) {
+            if let Some(c) = l.split("cov:").nth(1).and_then(|x| x.split_whitespace().next()).and_then(|x| x.parse::<u64>().ok()) {
+                cov = cov.max(c);
+            }
+        }
+        match st {
+            None => res.inconclusive.push("fuzz process exceeded the watchdog".into()),
+            Some(s) if s.success() => {}
+            Some(s) => {
+                // a saved crashing input: confirm through the ordinary (non-ASan) replay path first
+                let arts: Vec<_> = fs::read_dir(d.join("artifacts")).map(|r| r.flatten().map(|e| e.path()).collect()).unwrap_or_default();
+                let first = log.lines().find(|l| l.contains("VIOLATION-IN-TARGET") || l.contains("ERROR: AddressSanitizer") || l.contains("panicked")).unwrap_or("fuzz target died").to_string();
+                let dir = Path::new(VERIF).join("evidence/replays");
+                fs::create_dir_all(&dir).unwrap();
+                if let Some(a) = arts.first() {
+                    let bytes = fs::read(a).unwrap_or_default();
+                    let keep = dir.join(format!("{}-fuzz-{:016x}.bin", prop, vcore::fnv(&bytes)));
+                    let _ = fs::copy(a, &keep);
+                    let rp = dir.join(format!("{}-fuzz-{:016x}.json", prop, vcore::fnv(&bytes)));
+                    let semantic = first.contains("VIOLATION-IN-TARGET");
+                    let body = if semantic {
+                        json!({"property": prop, "engine": engine, "focus": prop, "size": if target == "prog" { 0 } else { 1 }, "bytes": crate::hex(&bytes), "message": first})
+                    } else {
+                        json!({"property": prop, "engine": "fuzz-artifact", "target": target, "artifact": keep.strip_prefix(VERIF).unwrap_or(&keep).to_string_lossy(), "message": first})
+                    };
+                    fs::write(&rp, serde_json::to_vec_pretty(&body).unwrap()).unwrap();
+                    res.violations.push((rp.to_string_lossy().to_string(), format!("libFuzzer/ASan ({:?}): {}", s, first.trim())));
+                } else {
+                    res.inconclusive.push(format!("fuzz process failed without an artifact: {:?} {}", s, first));
+                }
+            }
+        }
+    }
+    res.extra.insert(format!("libfuzzer_coverage_{}", target), json!(cov));
     res
 }
